@@ -30,7 +30,7 @@ JudgeTable3(bad) == bad = {} \/ (PrintT(<<"NOTE", l, "badcell", FirstOf(bad)>>) 
 Refused(e, i) == e.h[i] = "err" /\ e.hc[i] = "err" /\ e.hc2[i] = "err" /\ e.hr[i] = "err"
 JudgeDeep2(e, T, I, D) == JudgeTable3({i \in D : ~Refused(e, i)} \cup (BadCells(e, T, I) \ D))
 JudgeTable4(e, T, I) == IF WellFormed2(T, I) THEN JudgeTable3(BadCells(e, T, I))
-                        ELSE IF ShapeOK2(T, I) THEN PrintT(<<"NOTE", l, "too-deep">>) /\ JudgeDeep2(e, T, I, Doomed2(T, I))
+                        ELSE IF CellsShapeOK2(T, I) THEN PrintT(<<"NOTE", l, "too-deep">>) /\ JudgeDeep2(e, T, I, Doomed2(T, I))
                         ELSE PrintT(<<"NOTE", l, "not-well-formed">>)
 JudgeTable2(e, T) == IF ~Topological(T) THEN PrintT(<<"NOTE", l, "not-well-formed">>) ELSE JudgeTable4(e, T, InfoTable(T))
 JudgeTable(e) == JudgeTable2(e, FromJson(e.cells))
